@@ -121,6 +121,15 @@ pub fn run(ctx: &mut Ctx) {
             }
         }
     }
+    // valid lists with 2^16 - 1 .. 2^16 + 1 real entries
+    for (i, n) in [65535usize, 65536, 65537].iter().enumerate() {
+        if ctx.mine(i as u64 + 9) {
+            let mut r = crate::rng::Rng::new(199 + *n as u64);
+            let ast = crate::gen::smlgen::gen_tiny_list_file(&mut r, *n);
+            let e = crate::refm::sml::encode_canonical(&ast);
+            ctx.eval(&AgreeP { x: e.bytes, family: "valid-2^16-entries", what: String::new() });
+        }
+    }
     // valid files incl. long lists
     let n = ctx.count(20_000, 1_000_000);
     for i in 0..n {
